@@ -83,4 +83,34 @@ def extra(ctx):
             bad += 1
     if bad and not viol:
         viol.append(ctx["write_replay"](1, {"property": ID, "why": "%d op(s) with results differing from the sequential run under -race" % bad}))
-    return viol, {"race_ops": len(ops), "race_reports": races, "race_exit": p.returncode}
+    # cold starts: fresh processes whose very first calls into the package are concurrent (process-wide caches filled under contention)
+    ncold = 10 if ctx["tier"] == "quick" else 60
+    cold_bad, cold_races, first = 0, 0, set()
+    for i in range(ncold):
+        o = ops[i % len(ops)] if ops else None
+        if o is None:
+            break
+        line = wire.dumps({"id": 0, "op": "cold", "args": {"text": wire.to_text(o["args"]["schema"]),
+                                                         "insts": [wire.to_text(x) for x in o["args"]["insts"][:4]]}}) + "\n"
+        try:
+            cp = subprocess.run([vh], input=line, capture_output=True, text=True, env=env, timeout=120)
+        except subprocess.TimeoutExpired:
+            cold_bad += 1
+            continue
+        cold_races += cp.stderr.count("WARNING: DATA RACE")
+        g = None
+        for ln in cp.stdout.split("\n"):
+            try:
+                g = json.loads(ln).get("go") or g
+            except Exception:
+                pass
+        if g is None or g.get("mismatches") or g.get("outcome") != "ok" or cp.returncode not in (0,):
+            cold_bad += 1
+            if len(viol) < 2:
+                viol.append(ctx["write_replay"](2 + len(viol), {"property": ID, "op": {"op": "cold", "args": json.loads(line)["args"]},
+                                                               "why": "a fresh process whose first calls into the package are concurrent: exit %r, result %r" % (cp.returncode, g),
+                                                               "report": cp.stderr[:4000]}))
+    if cold_races and not viol:
+        viol.append(ctx["write_replay"](4, {"property": ID, "why": "the race detector reports %d data race(s) in cold-start processes" % cold_races}))
+    return viol, {"race_ops": len(ops), "race_reports": races, "race_exit": p.returncode, "cold_processes": ncold,
+                  "cold_failures": cold_bad, "cold_race_reports": cold_races}
